@@ -401,11 +401,19 @@ HasNullNull(s) == (s.k = "union" /\ Len(s.kids) = 2 /\ s.kids[1].k = "null" /\ s
 (* viaF64 = TRUE predicts.                                                                                  *)
 KfJsonIntF64(ev) == JsonTextWhatM(ev, TRUE) = ""
 
+(* C17-avro-nested-ree-double-branch: a nullable RunEndEncoded column BELOW a struct / list / map is written   *)
+(* with the union branch twice (once for the field, once by the run-end encoder), so the bytes are not data of   *)
+(* the declared schema: arrow-avro's own reader fails or never returns on them.  Top-level run-end columns are  *)
+(* written correctly.  Identified by the schema shape (driver flag ree_nested).                                  *)
+KfAvroReeNested(ev) == ev.wout = "ok" /\ ev.ree_nested
+
 KF(ev, what) ==
   IF ev.op = "json_text" /\ what \in {"json values", "json reader rejects RFC 8259", "json int out of range read"} /\ KfJsonIntF64(ev)
   THEN "C17-json-int-via-f64-inexact"
   ELSE IF ev.op = "avro" /\ what = "avro round trip" /\ KfAvroUnion(ev) THEN "C17-avro-union-offsets-across-batches"
   ELSE IF ev.op = "avro" /\ what = "avro schema not Avro" /\ HasNullNull(ev.schema) THEN "C17-avro-null-column-union"
+  ELSE IF ev.op = "avro" /\ what \in {"avro round trip", "avro Decode(block)", "avro Encode(rows)", "avro Encode(row)"} /\ KfAvroReeNested(ev)
+  THEN "C17-avro-nested-ree-double-branch"
   ELSE IF ev.op = "csv_rt" /\ what \in {"csv text # Join", "csv Split(text)", "csv utf8 read", "csv round trip"} /\ KfCsvEscape(ev)
   THEN "C17-csv-escape-char-not-escaped"
   ELSE IF ev.op = "json_text" /\ what = "json reader rejects RFC 8259" /\ KfJsonNumberAtEof(ev) THEN "C17-json-number-at-eof"
